@@ -728,7 +728,13 @@ def Addr(inp, tab, ev):
     sec = K if inp["compressed"] else tab.uncompress(K)
     W.ref_addr(tab, inp["kind"], sec, inp["net"])
     test = inp["net"] == "test"
-    if inp["via"] == "wallet":
+    if inp["via"] == "imported-root":
+        # the ROOT node of a wallet imported from an extended PRIVATE key (its raw key field is 00 || k, 33 bytes)
+        w_ = {}
+        ok, v = call(lambda: w_.setdefault("w", BaseWallet.from_extended_key(untext(inp["xprv"]))))
+        if ok:
+            ok, v = call(getattr(w_["w"], inp["kind"] + "_address"), w_["w"].master)
+    elif inp["via"] == "wallet":
         node = PubKeyNode(key=K, chain_code=bytes(32), testnet=test)
         w = BaseWallet(master=node, testnet=test)
         ok, v = call(getattr(w, inp["kind"] + "_address"), node)
@@ -806,7 +812,8 @@ def Hash(inp, tab, ev):
     finally:
         if real is not None:
             ripemd.compress = real
-    ev["calls"] = calls[:ncalls] if (ok and observable[0]) else []
+    # (the block-by-block shell check is for inputs of up to a few KiB; longer ones are compared by digest only)
+    ev["calls"] = calls[:ncalls] if (ok and observable[0] and len(msg) <= 4096) else []
     ev["res"] = res_of(ok, v)
 
 
@@ -1123,6 +1130,16 @@ def Emit(inp, tab, ev):
             w = PaperWallet.from_extended_key(untext(inp["import"]))
         else:
             w = PaperWallet.from_bip39_seed_hex(inp["seed"], testnet=test)
+        if inp.get("companion"):
+            # somebody else looks at the same master node through a wallet of the OTHER network (and through a copy of
+            # this wallet): views do not change what this wallet emits
+            from btc_hd_wallet import BaseWallet
+            try:
+                other = BaseWallet(master=w.master, testnet=not w.testnet)
+                other.p2wpkh_address(other.master)
+                PaperWallet(master=w.master, testnet=w.testnet)
+            except Exception:
+                pass
         if what == "generate":
             lv, ex = wallet_leaves(w.generate(account=inp["account"], interval=tuple(inp["interval"])))
             leaves.extend(lv)
